@@ -459,6 +459,8 @@ class Engine:
                 return self.import_value(r, name)
         sp = self.spec.lookup(name)
         if sp is not None:
+            if isinstance(sp, PyVal) and sp.kind == "ghostlist":
+                return self.materialize_ghost_list(sp)
             return sp
         if module is None and name in self.repo.classes:
             return PyVal("class", ci=self.repo.classes[name])
@@ -495,6 +497,8 @@ class Engine:
             return self.const_cache[key]
         declared = self.spec.const_spec(module, name)
         if declared is not None:
+            if isinstance(declared, PyVal) and declared.kind == "ghostlist":
+                return self.materialize_ghost_list(declared)
             self.const_cache[key] = declared
             return declared
         node = module.assigns[name]
@@ -506,6 +510,27 @@ class Engine:
             self.path = saved
         self.const_cache[key] = v
         return v
+
+    def materialize_ghost_list(self, g):
+        ref = z3.IntVal(-g.ident)
+        lv = SV(ListOf(REAL), ref)
+        p = self.path
+        if p is None:
+            return lv
+        done = p.ghost.setdefault("ghostlists", set())
+        if g.ident in done:
+            return lv
+        done.add(g.ident)
+        n = self.list_len(ref, REAL)
+        arr = self.list_items(ref, REAL)[0]
+        p.assume(n == len(g.values), check=False)
+        # only the facts the contracts use: first, last (all ground-checked natively on every run)
+        for i in (0, len(g.values) - 1):
+            p.assume(z3.Select(arr, i) == zreal(g.values[i]), check=False)
+        if all(a < b for a, b in zip(g.values, g.values[1:])):
+            a, b = bvar("ga"), bvar("gb")
+            p.assume(z3.ForAll([a, b], z3.Implies(z3.And(0 <= a, a < b, b < n), z3.Select(arr, a) < z3.Select(arr, b))), check=False)
+        return lv
 
     # ------------------------------------------------------------------ truthiness / comparison
     def truth(self, v):
